@@ -178,7 +178,8 @@ impl<S: Store> RateLimiter<S> {
             let allow_at = new_tat.saturating_sub(delay_variation_tolerance_ns);
             let allowed = now_ns >= allow_at;
 
-            if allowed {
+            // A zero-quantity request is a pure probe: it must not touch the stored state
+            if allowed && quantity > 0 {
                 // Update the store with new TAT
                 let ttl = Duration::from_nanos(
                     new_tat
